@@ -12,7 +12,7 @@
    operators ([table_ok]; any number of levels, any prefix operators, the empty table included), every
    identifier chain, every expression, every fuel - no bound on depth or length. *)
 From P2 Require Import Base.Prelude Lex.Token Syn.Ast Syn.Parse Syn.Render Syn.ParseRel Syn.ParseProofs
-  Syn.ParseSound Syn.ParseTotal Syn.ParseCor Syn.Full Syn.FullProofs Syn.FullSound Syn.TextToAst.
+  Syn.ParseSound Syn.ParseTotal Syn.ParseCor Syn.Full Syn.FullProofs Syn.FullSound Syn.TextToAst Syn.TableBuild Syn.TableBuildProofs.
 From P2 Require Lex.Tok Lex.TokProofs.
 
 (* completeness: every well-formed rendering is parsed, as a whole, to exactly the tree it denotes
@@ -104,6 +104,18 @@ Theorem C03_text_layout_irrelevant : forall (tc : P2.Lex.Tok.tcfg) (pc : pcfg) (
   parse_tokens pc ids (P2.Lex.Tok.tokenize tc (P2.Lex.Tok.layout_text items))
   = parse_tokens pc ids (P2.Lex.Tok.tokenize tc (P2.Lex.Tok.layout_text items')).
 Proof. exact text_layout_irrelevant. Qed.
+
+(* tables built through the generator API (Syn/TableBuild.v: AddOp* append, AddOpBehind(behind, new) = insert_behind):
+   after the insertion the new operator binds exactly one level tighter than its anchor (so looser than the anchor's old
+   successor, which moves up with everything above it), every operator up to the anchor keeps its level.  The run checks
+   on every generated declaration history that the real parser holds build_table of the history. *)
+Theorem C03_insert_behind_priority : forall tbl anchor op p,
+  NoDup tbl -> ~ In op tbl -> level_of tbl anchor = Some p ->
+  exists tbl', insert_behind anchor op tbl = Some tbl' /\
+    level_of tbl' anchor = Some p /\ level_of tbl' op = Some (S p) /\
+    (forall x q, level_of tbl x = Some q -> level_of tbl' x = Some (if (q <=? p)%nat then q else S q)) /\
+    length tbl' = S (length tbl).
+Proof. exact insert_behind_priority. Qed.
 
 (* parser half of C04, for EVERY configuration (no side condition on the table: the empty table and a prefix
    operator that is also the highest binary level included) and every token list of the full grammar:
@@ -222,6 +234,7 @@ Print Assumptions C03_parse_sound_full.
 Print Assumptions C03_parse_iff_renders.
 Print Assumptions C03_text_to_ast.
 Print Assumptions C03_text_layout_irrelevant.
+Print Assumptions C03_insert_behind_priority.
 Print Assumptions C03_parse_no_panic.
 Print Assumptions C03_parse_total.
 Print Assumptions C03_parse_fuel_stable.
